@@ -145,7 +145,7 @@ def gen(rng, knobs):
             script[at:at] = [["send", json.dumps(["EVENT", e])] for e in seq]
         clients.append({"script": script})
     return {"backend": backend, "clients": clients,
-            "sched": {"client": rng.choice([0.5, 1.0, 3.0]), "sql": rng.choice([0.3, 1.0, 3.0]),
+            "sched": {**histgen.stall_knob(rng), "client": rng.choice([0.5, 1.0, 3.0]), "sql": rng.choice([0.3, 1.0, 3.0]),
                       "exec": rng.choice([0.2, 1.0, 3.0]), "writer": rng.choice([0.2, 1.0, 3.0]),
                       "ready": rng.choice([1.0, 4.0, 8.0])}}
 
